@@ -413,3 +413,30 @@ def selfcheck():
     assert A.same(A.sqrt(Rat.const(4) * (s0 + v)), Rat.const(2) * r)
     assert A.same(A.D(r), Rat.sym('dv') / (Rat.const(2) * r))
     return True
+
+
+_KNOWN_CALLS = ('numpy.sqrt', 'math.sqrt', 'numpy.exp', 'math.exp', 'numpy.log', 'math.log',
+                'numpy.power', 'numpy.square', 'scipy.stats.norm.cdf', 'scipy.stats.norm.pdf',
+                'scipy.stats.norm.logcdf', 'scipy.stats.norm.logpdf', 'scipy.stats.skewnorm.cdf')
+
+
+def opaque_leaf(leaf):
+    """Wrap a leaf function for the side of an identity that is *not* differentiated: a call or
+    attribute the fragment does not know becomes an opaque symbol, so that a foreign quantity in a
+    formula makes the identity fail (a violation) instead of leaving it undecided.  Clipping
+    operators still raise Clipped."""
+    def wrapped(t):
+        r = leaf(t)
+        if r is not None:
+            return r
+        if t[0] == 'call':
+            g = _gname(t[1])
+            if g in _CLIP or g in _SHAPE_FUNCS or g in _KNOWN_CALLS:
+                return None
+            if t[1][0] == 'attr' and t[1][2] in _SHAPE_METHODS:
+                return None
+            return Rat.sym('?' + repr(t)[:60])
+        if t[0] == 'attr':
+            return Rat.sym('?' + repr(t)[:60])
+        return None
+    return wrapped
